@@ -46,6 +46,15 @@ inductive Tok
 
 def cmtCharOk (c : Char) : Bool := c != '*' && c != '/' && c != '\''
 
+/-- no `*/` in the bytes that follow a byte `p` -/
+def noCloseFrom : Char → Bytes → Bool
+  | _, [] => true
+  | p, c :: r => !(p == '*' && c == '/') && noCloseFrom c r
+
+/-- the comment bodies the scanner skips correctly (regenerated shape): with the raw skipper every body without `*/` — apostrophes,
+    `/*`, `*`, `/`, `#`, `(`, `)`, `;`, `=` included; with the old general search only bodies without `*`, `/`, `'` -/
+def cmtOk (b : Bytes) : Bool := if commentsRaw then noCloseFrom '\x00' b else b.all cmtCharOk
+
 def Tok.render : Tok → Bytes
   | .ref ds => '#' :: ds
   | .str b => '\'' :: renderStr b ++ ['\'']
@@ -60,7 +69,7 @@ def renderToks (ts : List Tok) : Bytes := ts.flatMap Tok.render
 def Tok.ok : Tok → Bool
   | .ref ds => !ds.isEmpty && ds.all isDigit && digitsVal ds ≤ instanceIdMax
   | .str b => strOk b
-  | .cmt b => b.all cmtCharOk
+  | .cmt b => cmtOk b
   | .popen => true
   | .pclose => true
   | .other c => c != '(' && c != ')' && c != '/' && c != '\'' && c != '=' && c != '#'
@@ -215,27 +224,50 @@ theorem skipWS_body_head (b : Bytes) (hb : b.all cmtCharOk = true) (rest : Bytes
       simp only [cmtCharOk, Bool.and_eq_true, bne_iff_ne, ne_eq] at hc
       exact ⟨c, _, skipWS_nonspace _ _ hs', hc.1.2, hc.2⟩
 
-/-- a rendered comment is skipped entirely, whatever `#`, `(`, `)`, `;`, `=` it contains -/
-theorem skipComment_render (b : Bytes) (hb : b.all cmtCharOk = true) (rest : Bytes) (hr : rest.head? ≠ some '*')
+theorem rawLoop_body (rest : Bytes) : ∀ (b : Bytes) (p : Char), noCloseFrom p b = true →
+    rawLoop p (b ++ '*' :: '/' :: rest) = .ok rest := by
+  intro b
+  induction b with
+  | nil =>
+    intro p _
+    have e : ('*' == '/') = false := by decide
+    simp [rawLoop, e]
+  | cons c t ih =>
+    intro p h
+    simp only [noCloseFrom, Bool.and_eq_true, Bool.not_eq_true'] at h
+    simp only [List.cons_append, rawLoop, h.1, Bool.false_eq_true, ↓reduceIte]
+    exact ih c h.2
+
+/-- a rendered comment is skipped entirely, whatever `#`, `(`, `)`, `;`, `=` (and, with the raw skipper, `'`, `/*`, `*`, `/`) it
+    contains — for either shape of the code -/
+theorem skipComment_render (b : Bytes) (hb : cmtOk b = true) (rest : Bytes) (hr : rest.head? ≠ some '*')
     (f : Nat) (hf : b.length + 5 ≤ f) :
     skipComment f ('*' :: (b ++ '*' :: '/' :: rest)) = .ok rest := by
-  obtain ⟨f2, rfl⟩ : ∃ k, f = k + 2 := ⟨f - 2, by omega⟩
   unfold skipComment
-  have h1 : skipWS ('*' :: (b ++ '*' :: '/' :: rest)) = '*' :: (b ++ '*' :: '/' :: rest) :=
-    skipWS_nonspace _ _ (by decide)
-  have e1 : ('*' == '/') = false := by decide
-  have e2 : ('*' == '\'') = false := by decide
-  rw [findStar]
-  simp (config := { decide := true }) only [h1, e1, e2, ge_iff_le, ↓reduceIte, Bool.false_and, Bool.false_eq_true,
-    beq_self_eq_true]
-  obtain ⟨c, r, h2, n1, n2⟩ := skipWS_body_head b hb rest
-  rw [findStar]
-  simp only [h2]
-  have q1 : (c == '\'') = false := by simp; exact n2
-  have q2 : (c == '/') = false := by simp; exact n1
-  have q3 : ('/' == c) = false := by simp; exact fun h => n1 h.symm
-  simp (config := { decide := true }) only [q1, q2, q3, ge_iff_le, ↓reduceIte, Bool.false_and, Bool.false_eq_true]
-  exact findStar_body b hb rest hr f2 _ (by omega)
+  unfold cmtOk at hb
+  split
+  · rename_i hraw
+    simp only [hraw, ↓reduceIte] at hb
+    exact rawLoop_body rest b _ hb
+  · rename_i hraw
+    have hraw' : commentsRaw = false := by simpa using hraw
+    simp only [hraw', Bool.false_eq_true, ↓reduceIte] at hb
+    obtain ⟨f2, rfl⟩ : ∃ k, f = k + 2 := ⟨f - 2, by omega⟩
+    have h1 : skipWS ('*' :: (b ++ '*' :: '/' :: rest)) = '*' :: (b ++ '*' :: '/' :: rest) :=
+      skipWS_nonspace _ _ (by decide)
+    have e1 : ('*' == '/') = false := by decide
+    have e2 : ('*' == '\'') = false := by decide
+    rw [findStar]
+    simp (config := { decide := true }) only [h1, e1, e2, ge_iff_le, ↓reduceIte, Bool.false_and, Bool.false_eq_true,
+      beq_self_eq_true]
+    obtain ⟨c, r, h2, n1, n2⟩ := skipWS_body_head b hb rest
+    rw [findStar]
+    simp only [h2]
+    have q1 : (c == '\'') = false := by simp; exact n2
+    have q2 : (c == '/') = false := by simp; exact n1
+    have q3 : ('/' == c) = false := by simp; exact fun h => n1 h.symm
+    simp (config := { decide := true }) only [q1, q2, q3, ge_iff_le, ↓reduceIte, Bool.false_and, Bool.false_eq_true]
+    exact findStar_body b hb rest hr f2 _ (by omega)
 
 theorem isDigit_not_space (c : Char) (h : isDigit c = true) : isSpace c = false := by
   unfold isDigit Char.isDigit at h
